@@ -40,7 +40,22 @@ def put(s, tag, body):
     return s[:a] + '\n' + body.strip('\n') + '\n' + s[b:]
 
 
+brow = ['| change | anchored property | what it does | first evaluation: checks not silent (1 = false VIOLATION, 2 = analysis error) | now |', '|---|---|---|---|---|']
+nb = nb_first = nb_now = 0
+for f in sorted(glob.glob(os.path.join(root, 'benign', '*', 'meta.json'))):
+    m = json.load(open(f))
+    nb += 1
+    fe = m.get('first_evaluation_not_silent') or {}
+    now = m.get('not_silent_now') or {}
+    nb_first += not fe
+    nb_now += not now
+    brow.append('| %s | %s | %s | %s | %s |' % (m['id'], m['property'], m.get('title', '').replace('|', '/')[:170], ', '.join('%s:%s' % kv for kv in sorted(fe.items())) or 'all 20 silent',
+                                              ', '.join('%s:%s' % kv for kv in sorted(now.items())) or 'all 20 silent'))
+brow.append('')
+brow.append('%d benign changes kept. All 20 checks silent: %d at first evaluation, %d now.' % (nb, nb_first, nb_now))
 s = put(s, 'RULES', rules)
+if '<!-- BENIGN:BEGIN -->' in s:
+    s = put(s, 'BENIGN', '\n'.join(brow))
 s = put(s, 'SEEDS', '\n'.join(rows))
 open(p, 'w').write(s)
 print('DESIGN.md updated: %d seeds' % n)
